@@ -4,6 +4,7 @@ Model.RevHeader (write_header / read_header / scan_doc) and Model.Incremental (l
 import io
 import json
 import os
+import sys
 import random
 import shutil
 import tempfile
@@ -37,7 +38,8 @@ RULE = ("seeded sequences of 1-6 generate_revision / command.revision / command.
         "command.revision and generate_revision with 3-4 heads) followed by a revision on the merge; explicit version_path "
         "{a configured location in five spellings, another location, a sub-directory of one, a sibling sharing its prefix, an "
         "unrelated path} x recursive_version_locations on/off: rejected calls are steps too (no file may be left). non-trivial = at least two revisions were generated; "
-        "distinct by the encoded input")
+        "distinct by the encoded input. Revision ids and file templates containing dots (1.0, 1.1, 3.1.post1) with sourceless = true "
+        "(byte code written, __pycache__ read on reload); a reload that warns (duplicate revision) counts as a failed reload")
 EXHAUSTIVE = {"quick": False, "thorough": False}
 CASE_TIMEOUT = 120
 DESIGN_REF = "DESIGN.md section 5 C17"
@@ -150,6 +152,23 @@ def gen_caseids(k):
                                     "recursive": False}, "seed": k}
 
 
+def gen_dotted(k):
+    """revision ids that contain a dot (1.0, 1.1, 2.0 -- legal identifiers) and file templates with dots, in sourceless mode
+    (the reload also looks into __pycache__, where the byte code of every loaded revision file sits): every file must be loaded
+    exactly once, so that the reloaded directory equals the incremental one without a duplicate-revision warning"""
+    tpl = [None, "%%(rev)s.%%(slug)s", "%%(slug)s.%%(rev)s", "v.%%(rev)s_%%(slug)s", "%%(rev)s_%%(slug)s"][k % 5]
+    via = lambda i: ["generate", "revision"][(k // 5 + i) % 2]
+    calls = [{"rid": "1.0", "msg": "create account table", "via": "generate", "head": "base", "fixed": True},
+             {"rid": "1.1", "msg": "add a column", "via": via(0), "head": "pick_head", "fixed": True},
+             {"rid": "2.0", "msg": "side.branch v2.0", "via": "generate", "head": "pick_any", "splice": True, "fixed": True,
+              "labels": ["side"] if k % 2 else []},
+             {"rid": "3.0", "msg": "merge", "via": ["generate", "merge", "revision"][k % 3], "head": "merge_all", "fixed": True},
+             {"rid": "3.1.post1", "msg": "on top", "via": via(1), "head": "head_symbol", "fixed": True,
+              "deps": ["id"] if k % 4 == 3 else []}]
+    return {"calls": calls, "cfg": {"file_template": tpl, "truncate_slug_length": None, "locations": 1 + (k // 10) % 2, "explicit": True,
+                                    "recursive": (k // 5) % 2 == 1, "sourceless": k % 6 != 5}, "seed": k}
+
+
 def finding_cases(reg):
     out = []
     base = {"cfg": {"file_template": None, "truncate_slug_length": None, "locations": 1}, "seed": 1}
@@ -191,6 +210,8 @@ def generate(tier, seed):
         yield gen_vpath(k)
     for k in range(12):
         yield gen_caseids(k)
+    for k in range(20):
+        yield gen_dotted(k)
 
 
 def search(tier, seed):
@@ -268,6 +289,7 @@ def _run_case(h):
     from alembic.config import Config
     from alembic.script import ScriptDirectory
     rnd = random.Random(h["seed"])
+    dwb = sys.dont_write_bytecode
     d = tempfile.mkdtemp(prefix="avc17")
     key = Intern()
     steps_in, steps_out, log = [], [], []
@@ -290,6 +312,10 @@ def _run_case(h):
                 os.makedirs(locs[-1])
             cfg.set_main_option("version_locations", os.pathsep.join(locs))
             cfg.set_main_option("version_path_separator", "os")
+        if c.get("sourceless"):
+            # the reload also reads __pycache__: let the interpreter write byte code as it normally does
+            cfg.set_main_option("sourceless", "true")
+            sys.dont_write_bytecode = False
         recursive = bool(c.get("recursive", False))
         if recursive:
             cfg.set_main_option("recursive_version_locations", "true")
@@ -504,9 +530,12 @@ def _run_case(h):
             if module_ok:
                 try:
                     vm = view(sd, key)
-                    vd = view(ScriptDirectory.from_config(cfg), key)
+                    with warnings.catch_warnings():
+                        # a file that is loaded twice is announced by a warning (Revision ... is present more than once)
+                        warnings.simplefilter("error")
+                        vd = view(ScriptDirectory.from_config(cfg), key)
                     views = (vm, vd)
-                except Exception as e:      # a reload that raises is part of the observable
+                except Exception as e:      # a reload that raises (or warns) is part of the observable
                     log.append("reload:%s" % type(e).__name__)
                     views = None
             steps_out.append({"path": path, "header": header, "loaded": loaded_ok, "module_ok": module_ok, "views": views,
@@ -517,6 +546,7 @@ def _run_case(h):
             ids.append(rid)
             labels.extend(labs)
     finally:
+        sys.dont_write_bytecode = dwb
         shutil.rmtree(d, ignore_errors=True)
     cin = lst(steps_in)
     cout = lst(steps_out, lambda o: "(mkSO %s %s %s %s %s %s %s %s)" % (
